@@ -7,7 +7,9 @@ import (
 	"fmt"
 	"math"
 	"os"
+	"sort"
 	"strings"
+	"sync"
 	"sync/atomic"
 
 	"github.com/ctessum/geom/proj"
@@ -50,6 +52,14 @@ func main() {
 	defs := projlib.Lattice(tier == "thorough")
 	rep.Set("definitions", len(defs))
 	var n, nontrivial int64
+	type failing struct {
+		class, gname, gdef, pdef, sym string
+		pt                            [2]float64 // geographic input actually used
+		x, y, lon2, lat2, x2, y2      float64
+		det                           string
+	}
+	var fmu sync.Mutex
+	var fails []failing
 	enum.Parallel(len(defs), rep.Expired, func(i int) {
 		d := defs[i]
 		noOrigin := !strings.Contains(d.Params, "x_0") && d.Proj != "utm" && d.Proj != "krovak"
@@ -112,12 +122,16 @@ func main() {
 				if dl > 180 {
 					dl = 360 - dl
 				}
+				sym, det := "", ""
 				if dl*math.Cos(lat*math.Pi/180) > 1e-6 && dl > 1e-6 || math.Abs(lat2-lat) > 1e-6 {
-					fail("geographic-roundtrip-exceeds-1e-6deg", pt, fmt.Sprintf("(%.9f, %.9f) -> (%.4f, %.4f) -> (%.9f, %.9f)", lon, lat, x, y, lon2, lat2))
-					break
+					sym, det = "geographic-roundtrip-exceeds-1e-6deg", fmt.Sprintf("(%.9f, %.9f) -> (%.4f, %.4f) -> (%.9f, %.9f)", lon, lat, x, y, lon2, lat2)
+				} else if math.Hypot(x2-x, y2-y)*d.ToMeter > 0.01 {
+					sym, det = "projected-roundtrip-exceeds-1cm", fmt.Sprintf("(%.4f, %.4f) -> (%.9f, %.9f) -> (%.4f, %.4f)", x, y, lon2, lat2, x2, y2)
 				}
-				if math.Hypot(x2-x, y2-y)*d.ToMeter > 0.01 {
-					fail("projected-roundtrip-exceeds-1cm", pt, fmt.Sprintf("(%.4f, %.4f) -> (%.9f, %.9f) -> (%.4f, %.4f)", x, y, lon2, lat2, x2, y2))
+				if sym != "" {
+					fmu.Lock()
+					fails = append(fails, failing{class, g.name, g.def, d.Proj4, sym, [2]float64{lon, lat}, x, y, lon2, lat2, x2, y2, det})
+					fmu.Unlock()
 					break
 				}
 			}
@@ -129,6 +143,67 @@ func main() {
 			rep.Sample(10, d.Proj4)
 		}
 	})
+	// A round trip that exceeds the tolerance although every step agrees with
+	// the vendored proj4js 2.3.12 to 0.1 mm / 1e-9 deg is inherited from the
+	// original (C09 obliges the port to agree with it) and gets its own
+	// signature class; everything else is a plain violation.
+	sort.Slice(fails, func(i, j int) bool {
+		if fails[i].pdef != fails[j].pdef {
+			return fails[i].pdef < fails[j].pdef
+		}
+		return fails[i].gname < fails[j].gname
+	})
+	// proj4js has no defaults for omitted +x_0 +y_0 +lat_0 (it yields NaN), so
+	// the reference is asked about the same definition with the PROJ.4
+	// defaults written out.
+	complete := func(def string) string {
+		if strings.Contains(def, "+proj=utm") || strings.Contains(def, "+proj=krovak") || strings.Contains(def, "+proj=longlat") {
+			return def
+		}
+		if !strings.Contains(def, "+x_0=") {
+			def += " +x_0=0 +y_0=0"
+		}
+		if !strings.Contains(def, "+lat_0=") {
+			def += " +lat_0=0"
+		}
+		return def
+	}
+	var reqs []projlib.Req
+	for _, f := range fails {
+		pd := complete(f.pdef)
+		reqs = append(reqs,
+			projlib.Req{Src: f.gdef, Dst: pd, Pts: [][2]float64{f.pt}},
+			projlib.Req{Src: pd, Dst: f.gdef, Pts: [][2]float64{{f.x, f.y}}},
+			projlib.Req{Src: f.gdef, Dst: pd, Pts: [][2]float64{{f.lon2, f.lat2}}})
+	}
+	var refs []projlib.Res
+	if len(reqs) > 0 && (projlib.NodeAvailable() || projlib.GoldenMatches("c08-failing-"+tier, reqs)) {
+		refs, _ = projlib.Reference("c08-failing-"+tier, reqs)
+	}
+	for i, f := range fails {
+		same := false
+		if refs != nil {
+			a, b, c := refs[3*i].Points, refs[3*i+1].Points, refs[3*i+2].Points
+			if len(a) == 1 && len(b) == 1 && len(c) == 1 && a[0] != nil && b[0] != nil && c[0] != nil {
+				same = math.Hypot(a[0][0]-f.x, a[0][1]-f.y) <= 1e-4 && math.Abs(b[0][0]-f.lon2) <= 1e-9 && math.Abs(b[0][1]-f.lat2) <= 1e-9 && math.Hypot(c[0][0]-f.x2, c[0][1]-f.y2) <= 1e-4
+			}
+		}
+		sig := fmt.Sprintf("%s|%s|%s", f.class, f.gname, f.sym)
+		if same {
+			// inherited behaviour: one class per cause, whatever the projection
+			cause := f.class
+			parts := strings.Split(f.class, "|")
+			switch {
+			case len(parts) > 1 && (parts[1] == "datum" || strings.HasPrefix(parts[1], "towgs84")):
+				cause = "datum-shift:" + parts[1]
+			case len(parts) > 1 && parts[1] == "sphere" && (parts[0] == "tmerc" || parts[0] == "utm"):
+				cause = "spherical-transverse-mercator"
+			}
+			sig = fmt.Sprintf("%s|%s|roundtrip-beyond-tolerance|identical-in-proj4js-2.3.12", f.gname, cause)
+		}
+		rep.Violation(sig, map[string]interface{}{"geographic": f.gdef, "projected": f.pdef, "position_lonlat": f.pt, "observed": f.det})
+	}
+	rep.Set("roundtrips_beyond_tolerance", len(fails))
 	if rep.Expired() {
 		rep.Cap("wall budget expired")
 	}
